@@ -59,6 +59,12 @@ impl Dim {
         c.internal = self.internal;
         c.physics_first_on_pht = self.mixed;
         c.detector_field = self.det_field;
+        if self.det_field != 0 {
+            // the configurations with detector-field status bits also carry every TDT status flag and start their
+            // packet counters at 255 (the counter wraps to 0 on the second packet)
+            c.tdt_status = 0b1_1111;
+            c.first_packet_counter = 255;
+        }
         c.triggers = vec![grammar::TRG_SOC_HB_TF, grammar::TRG_PHT];
         c.rdh_bcs = vec![0, 1];
         c.bc_step = 0x120;
